@@ -254,12 +254,14 @@ def run_worker(workload, hashseed):
 _BASE = {}
 
 
-def baseline(pool, g, sid, bodies=False, disk=False):
-    key = (g, sid, pool[sid], disk)
+def baseline(pool, g, sid, bodies=False, disk=False, origin="string"):
+    key = (g, sid, pool[sid], disk, origin)
     if key not in _BASE or (bodies and "bodies" not in _BASE[key]):
-        w = {"schemas": {sid: pool[sid]}, "ops": [["generate", g, sid, False, disk]], "clock0": 1_700_000_000,
+        # pristine run: one generation; for a tree that was parsed from a FILE the baseline parses the same relative path
+        ops = [["generate", g, sid, False, disk]] if origin == "string" else [["parse_file", sid], ["generate", g, sid, True, disk]]
+        w = {"schemas": {sid: pool[sid]}, "ops": ops, "clock0": 1_700_000_000,
              "user": "simuser", "host": "simhost", "listperm": 0, "keep_bodies": bodies}
-        _BASE[key] = run_worker(w, 0)["obs"][0]
+        _BASE[key] = run_worker(w, 0)["obs"][-1]
     return _BASE[key]
 
 
@@ -346,7 +348,7 @@ def judge_run(pool, cfg, sids, ops, probes=None, tr=None, distinct=None):
     for ob in out["obs"]:
         oi = ob["op"]
         g, sid = ob["generator"], ob["schema"]
-        base = baseline(pool, g, sid, disk=bool(ob.get("disk")))
+        base = baseline(pool, g, sid, disk=bool(ob.get("disk")), origin=ob.get("origin", "string"))
         evals += 1
         if ob.get("disk"):
             probes["generated_through_manager_into_reused_dir"] += 1
